@@ -30,7 +30,9 @@ RULE = ('Direct calls of the real DollarWeightedCashBufferedOrderSizer through a
         'and fee model are the real ones) with a harness-owned price handler: 1-8 assets, weights from {0, 1, k/10, '
         'U(0,3), tiny, huge}, all-zero and ~zero-sum vectors, prices 0.01-5000 incl. integers, equity 1e2-1e9, buffer '
         '{0, 0.05, 0.5, 1, U(0,1)}, zero or percentage fees with total rate <= 1; 12% invalid inputs (negative weight, '
-        'buffer outside [0,1], NaN price). Oracle in exact rationals: q is a non-negative int equal to '
+        'buffer outside [0,1], NaN price). Also: 1-3 further calls on the SAME sizer object with other weights/prices (half through the same dict changed in place); '
+        'sizing through the sizer wired by BacktestTradingSession/QuantTradingSystem with the configured buffer/leverage (incl. buffer 0.0 and 1.0); '
+        'a real CSV source whose leading rows are blank (sizing in that gap must be rejected). Oracle in exact rationals: q is a non-negative int equal to '
         'floor(normalised share x (1-buffer) x equity x (1-f) / price) (both neighbours accepted within 1e-9 of an '
         'integer, counted as ambiguous_boundary), hence q*p + f*alloc <= alloc < (q+1)*p + f*alloc and the whole target '
         '<= (1-buffer) x equity. Non-trivial: >= 2 assets, some non-zero weight, percentage fees; distinct = distinct input.')
